@@ -2,6 +2,8 @@
 from vmon import env, hooks, scopes, tablegen
 from vmon.hooks import MON
 from vmon.molgen import random_tree_mol, spell, macrocycle, from_read, GAtom
+from vmon.aromgen import standard_system, link_systems, pi_set
+from vmon.matching import exact_pm
 from vmon.roundtrip import roundtrip
 from vmon.smiles_reader import read_smiles, SmilesSyntaxError
 
@@ -24,7 +26,7 @@ def shards(tier):
 
 def floors(tier):
     return {"roundtrips_ok": 5000, "M1.encoder_graphs": 5000, "M2.writes": 5000, "span>=17": 20,
-            "span>=257": 4, "dataset_ok": 300, "respelled_ok": 300, "mixed_label_spellings": 50, "loosened_table_molecules": 500, "encoder_rejects": 100}
+            "span>=257": 4, "dataset_ok": 300, "respelled_ok": 300, "mixed_label_spellings": 50, "loosened_table_molecules": 500, "encoder_rejects": 100, "aromatic_roundtrips_ok": 300}
 
 
 def _nontrivial(m):
@@ -85,6 +87,25 @@ def run(ctx):
             accepted.add(st in ("ok", "violation"))
         if len(accepted) > 1:
             ctx.finding("acceptance-depends-on-spelling", {"smiles": s, "table": table}, "spellings of one molecule differ in acceptance")
+
+    # --- aromatic input: kekulizable ring systems, also joined by explicit single bonds between aromatic atoms
+    sf.set_semantic_constraints({"?": 12})
+    table = sf.get_semantic_constraints()
+    for i in range(120 if quick else 3000):
+        parts = [standard_system(rng, nrings=rng.choice([1, 2, 3]), sizes=rng.choice([(5, 6, 6, 7), (6,), (6, 8), (4, 6, 8)]), chords=0)
+                 for _ in range(rng.choice([1, 2, 2, 3]))]
+        m, kind_of, ae = link_systems(rng, parts) if len(parts) > 1 else parts[0]
+        P, unknown = pi_set(kind_of)
+        adj = {v: [] for v in range(len(m.atoms))}
+        for a, b in ae:
+            adj[a].append(b)
+            adj[b].append(a)
+        if not exact_pm(P, {v: [w for w in adj[v] if w in P] for v in P}):
+            continue
+        for k in range(3):
+            s, order, _, _ = spell(m, rng)
+            if case(s, table, "q12", "aromatic") == "ok":
+                ctx.count("aromatic_roundtrips_ok")
 
     # --- macrocycles / long branches: index lengths 1, 2, 3
     sf.set_semantic_constraints("default")
